@@ -15,6 +15,7 @@ import C4E.Distributor
 import C4E.Props.C02
 import C4E.Props.C03
 import C4E.Lemmas.DistrTotal
+import C4E.Lemmas.DistrInvariant
 namespace C4E.Props.C10
 open C4E
 
@@ -115,6 +116,22 @@ theorem distributor_block_completes (e : Env) (henv : EnvOk e) (hmod : e.modAddr
   intro s hs
   rw [hst] at hs
   exact t2 s (mem_storeStates stored s hs)
+
+/-- **the statement C03 set out as its target (`C03.books_step_full`), now a theorem**: the block
+    completes and BOTH registered invariants of the module — `nonnegative-remains` and
+    `state-sum-balance-check`, evaluated exactly as the Go code evaluates them — hold afterwards -/
+theorem block_completes_with_registered_invariants (e : Env) (henv : EnvOk e) (hmod : e.modAddr? "" = none)
+    (hburn : BurnerOk e) (subs : List SubD) (hv : paramsValid e subs = true) (hb32 : Bech32Facts subs)
+    (w0 : Distr.World) (faults : List Nat) (hinv : FullInv e w0) :
+    ∃ r, Distr.beginBlock e subs w0 faults = .ok r ∧
+      Distr.nonNegativeStates r.world.states = true ∧ Distr.stateSumMatchesBalance e r.world = true := by
+  obtain ⟨r, hr, hinv', hU⟩ := distributor_block_completes e henv hmod hburn subs hv hb32 w0 faults hinv
+  refine ⟨r, hr, ?_, stateSumMatchesBalance_of_books e r.world hinv'.books.states hinv'.states2 hinv'.bank hU⟩
+  unfold Distr.nonNegativeStates
+  apply List.all_eq_true.mpr
+  intro s hs
+  have := anyNegative_of_en _ (hinv'.books.states s hs).1
+  simp [this]
 
 /-- what may happen between two blocks (C03's `Inflow`) with a bank that stays well-formed -/
 def InflowT (e : Env) (w w' : Distr.World) : Prop := Inflow e w w' ∧ BankOk e w'.bank
